@@ -1,6 +1,37 @@
-From Coq Require Import List String.
-From GinV Require Import Model.Values Model.Gin.
+(* C20 — clear_config returns the configuration to its pristine state.
+   Statements only; proofs in Proofs/MachineProofs.v, Proofs/MachineClear.v. *)
+From Coq Require Import List String ZArith Bool.
+From GinV Require Import Lib.Out Lib.PyStr Model.SelectorMap Model.Values Model.Gin Model.GinEngine
+                         Proofs.MachineFrame Proofs.MachineProofs Proofs.MachineClear.
 Import ListNotations.
-Theorem C20_placeholder : prefixes [1;2] = [[]; [1]; [1;2]].
-Proof. reflexivity. Qed.
-Print Assumptions C20_placeholder.
+Open Scope string_scope.
+Open Scope list_scope.
+
+(* clear_config always succeeds (repaired code) ... *)
+Theorem C20_clear_total : forall s b, exists s', clear_config s b = (s', Ok tt).
+Proof. exact clear_total. Qed.
+
+(* ... and leaves no bindings, no operative record, no singletons, an unlocked configuration, the same registry *)
+Theorem C20_pristine : forall s b s', clear_config s b = (s', Ok tt) ->
+  config s' = [] /\ operative s' = [] /\ singletons s' = [] /\ locked s' = false /\ reg s' = reg s /\
+  scopes s' = scopes s /\ (b = true -> constants s' = req_constants).
+Proof. exact clear_ok_pristine. Qed.
+
+(* after ANY history from any set of registrations, clear_config() keeps every constant *)
+Theorem C20_after_any_history : forall fuel regs ops,
+  let s := run_top fuel (setup regs) ops in
+  exists s', clear_config s false = (s', Ok tt) /\
+    sm_flat (constants s') = sm_flat (constants s) /\
+    config s' = [] /\ operative s' = [] /\ singletons s' = [] /\ locked s' = false.
+Proof. exact clear_keeps_constants_run. Qed.
+
+(* the code before the repair could fail: constants a.b.X then b.X defined in interactive mode *)
+Theorem C20_orig_can_fail_refuted : exists s,
+  (exists s0 ops, s = run_top 50 init_state ops /\ s0 = s) /\
+  exists s' e, clear_config_orig s false = (s', Raise e).
+Proof. exact clear_can_fail_refuted. Qed.
+
+Print Assumptions C20_clear_total.
+Print Assumptions C20_pristine.
+Print Assumptions C20_after_any_history.
+Print Assumptions C20_orig_can_fail_refuted.
